@@ -51,3 +51,33 @@ pub(super) fn explicit_without_source() {
     assert!(m.check_explicit(&ArgPredicate::IsPresent));
     std::mem::forget(m);
 }
+
+/// C03 "required-if / requires-if rules": `check_explicit(Equals(v))` is true exactly when the argument was
+/// given explicitly and ANY of its values, in any occurrence, equals v (two occurrences, symbolic values).
+#[kani::proof]
+#[kani::unwind(6)]
+pub(super) fn check_explicit_equals_any_occurrence() {
+    use std::os::unix::ffi::OsStrExt as _;
+    let src = any_source();
+    let t1: u8 = kani::any();
+    let t2: u8 = kani::any();
+    kani::assume((t1 == b'x' || t1 == b'y') && (t2 == b'x' || t2 == b'y'));
+    // built field by field (this module is a child of matched_arg): check_explicit reads only `source`,
+    // `raw_vals` and `ignore_case`; the typed values (`Arc<dyn Any>`, which exhaust CBMC's memory here) are
+    // left empty
+    let m = MatchedArg {
+        source: Some(src),
+        indices: Vec::new(),
+        type_id: None,
+        vals: Vec::new(),
+        raw_vals: vec![vec![OsString::from(OsStr::from_bytes(&[t1]))], vec![OsString::from(OsStr::from_bytes(&[t2]))]],
+        ignore_case: false,
+    };
+    let pred = ArgPredicate::Equals(crate::builder::OsStr::from("x"));
+    let want = rank(src) != 0 && (t1 == b'x' || t2 == b'x');
+    assert!(m.check_explicit(&pred) == want);
+    kani::cover!(rank(src) != 0 && t1 == b'x' && t2 == b'y');
+    kani::cover!(rank(src) == 0 && t1 == b'x');
+    std::mem::forget(pred);
+    std::mem::forget(m);
+}
